@@ -703,4 +703,79 @@ theorem fillEmpty_of_rect (dflt : ν) : ∀ (d : Nat) (ns : List Nat) (x : Nest 
       exact Option.some.inj this
 
 end Unc
+
+/-! ### dictionaries and `==` -/
+
+section Dict
+variable {κ ν : Type}
+
+theorem zip_map_fst_snd {α β : Type} (f : List (α × β)) : (f.map (·.1)).zip (f.map (·.2)) = f := by
+  induction f with
+  | nil => rfl
+  | cons e r ih => simp [ih]
+
+theorem mapMOpt_map_some {α β γ : Type} (g : β → Option γ) (h : α → β) (k : α → γ) :
+    ∀ (l : List α), (∀ x ∈ l, g (h x) = some (k x)) → mapMOpt g (l.map h) = some (l.map k) := by
+  intro l
+  induction l with
+  | nil => intro _; rfl
+  | cons x xs ih =>
+    intro hx
+    simp only [List.map_cons, mapMOpt, hx x (List.mem_cons_self ..),
+      ih (fun z hz => hx z (List.mem_cons_of_mem _ hz))]
+
+theorem fiber2dict_succ (d : Nat) (f : Tree κ ν (d + 1)) :
+    fiber2dict (d + 1) f =
+      (((asList f).map (·.1), (asList f).map (fun e => fiber2dict d e.2)) : List κ × List (YDict κ ν d)) := rfl
+
+theorem dict2fiber_succ (d : Nat) (cs : List κ) (ps : List (YDict κ ν d)) :
+    dict2fiber (d + 1) ((cs, ps) : List κ × List (YDict κ ν d)) =
+      match mapMOpt (dict2fiber d) ps with
+      | some ps' => if cs.length = ps'.length then some (cs.zip ps' : List (κ × Tree κ ν d)) else none
+      | none => none := rfl
+
+theorem dict2fiber_fiber2dict : ∀ (d : Nat) (t : Tree κ ν d), dict2fiber d (fiber2dict d t) = some t := by
+  intro d
+  induction d with
+  | zero => intro t; rfl
+  | succ d ih =>
+    intro t
+    rw [fiber2dict_succ, dict2fiber_succ,
+      mapMOpt_map_some (dict2fiber d) (fun e => fiber2dict d e.2) (fun e => e.2) (asList t) (fun x _ => ih x.2)]
+    simp only [List.length_map, if_true, zip_map_fst_snd]
+
+section Eq
+variable [LT κ] [DecidableRel (α := κ) (· < ·)] [DecidableEq κ] [DecidableEq ν]
+
+theorem orMerge_self {π : Type} : ∀ (a : Fib κ π),
+    orMerge a a = a.map (fun e => (e.1, (Mask.AB, some e.2, some e.2))) := by
+  intro a
+  induction a with
+  | nil => simp [orMerge]
+  | cons e r ih =>
+    obtain ⟨c, p⟩ := e
+    rw [orMerge]
+    simp [ih]
+
+theorem eqB_succ (da db : ν) (d : Nat) (a b : Tree κ ν (d + 1)) :
+    eqB da db (d + 1) a b =
+      (orMerge (present da d a) (present db d b)).all (fun row =>
+        match row.2 with
+        | (Mask.AB, some pa, some pb) => eqB da db d pa pb
+        | _ => false) := rfl
+
+/-- `t == t` for every tree (no order assumption is needed: the union of a list with
+    itself only ever takes the "equal coordinates" branch) -/
+theorem eqB_refl (dflt : ν) : ∀ (d : Nat) (t : Tree κ ν d), eqB dflt dflt d t t = true := by
+  intro d
+  induction d with
+  | zero => intro t; exact decide_eq_true rfl
+  | succ d ih =>
+    intro t
+    rw [eqB_succ, orMerge_self, List.all_map, List.all_eq_true]
+    intro e _
+    exact ih e.2
+
+end Eq
+end Dict
 end Ft
